@@ -130,6 +130,32 @@ def parse_text(lang: str, text: str) -> dict:
     return P
 
 
+def py_skeleton(text: str):
+    """line structure of a Python text without reading its expressions: ([[target, right-hand side]], inputs / extra / ret)"""
+    lines = [l for l in text.split("\n") if l.strip() and not l.startswith(("import ", "from "))]
+    m = HEADER["py"].match(lines[0]) if lines else None
+    if not m or len(lines) < 2:
+        return None
+    extra = re.findall(r", (\w+)", m.group("extra"))
+    body, inputs = lines[1:], []
+    for _, rx in UNPACK["py"]:
+        mm = rx.match(body[0])
+        if mm:
+            inputs = [x.strip() for x in mm.group("names").split(",")]
+            body = body[1:]
+            break
+    assigns = []
+    for line in body[:-1]:
+        mm = ASSIGN["py"].match(line)
+        if not mm:
+            return None
+        assigns.append([mm.group("k"), mm.group("v")])
+    mr = re.match(r"^    return \[(?P<r>.*)\]$", body[-1])
+    if not mr or mr.group("r").strip() == "()":
+        return None
+    return assigns, {"inputs": inputs, "extra": extra, "ret": [x.strip() for x in mr.group("r").split(",")]}
+
+
 def text_shape(P) -> dict:
     return {"unpack": P["unpack"] if P["inputs"] else None, "inputs": P["inputs"], "extra": P["extra"],
             "assigns": [[k, sorted(cg.expr_names(e))] for k, e, _ in P["assigns"]],
@@ -301,9 +327,12 @@ def _eval_phase(m, content, case):
         except Exception as e:  # noqa: BLE001
             ent["gen"] = _canon_gen_exc(e)
             continue
-        if oracle_only:          # wider expression fragment: only executed, not read back
+        if oracle_only:          # wider expression fragment: only executed, not read back by the Python-side evaluator
             if lang == "py":
                 ent["exec"] = exec_py(ent["text"], states)
+                sk = py_skeleton(ent["text"])   # ... but its lines are handed to the Lean expression reader (Python's `%`)
+                if sk is not None:
+                    ent["lines"], ent["shape"] = sk
             continue
         try:
             P = parse_text(lang, ent["text"])
@@ -313,6 +342,7 @@ def _eval_phase(m, content, case):
                 ent["exec"] = exec_py(ent["text"], states)
             continue
         ent["shape"] = text_shape(P)
+        ent["lines"] = [[k, v] for k, _, v in P["assigns"]]
         ent["trees"] = [[k, repr(cg.strip_ann(e))] for k, e, _ in P["assigns"]]
         ent["rs_mix"] = lang == "rs" and any(cg.int_float_mix(e) or (e[0] == "num" and e[2]) for _, e, _ in P["assigns"])
         runs = []
@@ -493,6 +523,10 @@ def gen_case(ctx, i):
                  "decl_seed": rng.randrange(1 << 30), "stratum": stratum}, **extra)
 
 
+def _rich0(args, e):
+    return {"args": args, "e": ["a", 0], "rich": True, "src": {"e": e, "floats": []}}
+
+
 def exhaustive_cases(thorough: bool):
     """Seed-independent stratum: every content of a small grammar — 1-2 variables, 0-1 parameter, 0-2 derived values
     (a chain, in both declaration orders), 0-2 reactions with every non-empty stoichiometry pattern over the
@@ -572,6 +606,23 @@ def exhaustive_cases(thorough: bool):
         out.append({"content": content, "bad": [], "free": list(free), "langs": list(LANGS),
                     "states": [["1", ["5", "7"][:nvars], ["3"] * len(free)], ["0", ["2", "1"][:nvars], ["1"] * len(free)]],
                     "decl_seed": len(out), "stratum": "exhaustive-ia-parameters"})
+    # remainders without powers (oracle only, Python text; these texts are inside the fragment of the Lean expression
+    # reader, which has Python's `%`): dividend / divisor a name, a number, a sum, a product, a quotient, a negation, a
+    # remainder; the remainder as a factor, a summand, negated
+    A0, A1, A2 = ["a", 0], ["a", 1], ["a", 2]
+    rems = [["%", A0, A1], ["%", ["+", A0, ["c", "1/2"]], A1], ["%", ["*", A0, ["c", "3"]], ["+", A1, A1]],
+            ["%", A0, ["*", A1, ["c", "2"]]], ["%", ["neg", A0], A1], ["%", A0, ["/", A1, ["c", "2"]]],
+            ["%", ["/", A0, ["c", "4"]], ["/", ["c", "1"], A1]], ["*", ["%", A0, A1], A2], ["-", A2, ["%", A0, A1]],
+            ["neg", ["%", A0, A1]], ["%", ["%", A0, A1], ["c", "3/2"]], ["%", ["-", A0, A2], ["*", A1, A1]],
+            ["/", ["%", ["*", A0, ["c", "5"]], A1], A2], ["%", A0, ["c", "3"]], ["+", ["%", A0, ["c", "2"]], ["%", A2, A1]]]
+    for e in rems:
+        content = {"vars": [["x", {"v": "8"}], ["y", {"v": "2"}]], "pars": [["p", {"v": "4"}]],
+                   "derived": [["d", _rich0(["x", "p", "y"], e)]],
+                   "rxns": [["r", {"args": ["d", "x"], "e": ["*", ["a", 0], ["a", 1]],
+                                   "st": [["x", {"c": "-1"}], ["y", {"c": "1"}]]}]]}
+        out.append({"content": content, "bad": [], "free": [], "langs": ["py"], "oracle_only": True,
+                    "states": [["0", [str(x), str(y)], []] for x, y in ((8, 2), (1, 4), ("1/2", 1), (4, "1/2"))],
+                    "decl_seed": len(out), "stratum": "exhaustive-remainders"})
     # control-flow bodies on a grid of states (oracle only, Python text)
     for content in cg.cond_grid_contents():
         out.append({"content": content, "bad": [], "free": [], "langs": ["py"], "oracle_only": True,
@@ -601,6 +652,24 @@ def evaluate(cases, use_driver=True):
                 Ms[i][ph] = r
             else:
                 Ms[i] = r
+        # the right-hand sides of every emitted text, read by the Lean expression reader (Mxl.C07Expr.runLines) at the
+        # first state: a third reading of the real text next to exec / the Python-side evaluator
+        ereqs, ewhere = [], []
+        for i, (c, R) in enumerate(zip(cases, Rs)):
+            if "langs" not in R or not c["states"]:
+                continue
+            t, xs, ps = c["states"][0]
+            for lang, ent in R["langs"].items():
+                if "lines" not in ent or "shape" not in ent:
+                    continue
+                sh = ent["shape"]
+                if len(sh["inputs"]) != len(xs) or len(sh["extra"]) != len(ps):
+                    continue
+                env = [["time", t]] + [[k, v] for k, v in zip(sh["extra"], ps)] + [[k, v] for k, v in zip(sh["inputs"], xs)]
+                ereqs.append({"op": "c07", "exprLines": ent["lines"], "jl": lang == "jl", "py": lang == "py", "env": env})
+                ewhere.append((i, lang))
+        for (i, lang), r in zip(ewhere, driver.call_batch(ereqs) if ereqs else []):
+            Rs[i]["langs"][lang]["lean_expr"] = r
     return list(zip(Rs, Ms))
 
 
@@ -664,6 +733,8 @@ def judge_oracle_only(ctx, case, R, extern=None):
     if "gen" in ent:
         ctx.judge(sc, ent["gen"], {"ok": "text emitted"}, None, what="py: generation raised (oracle-only stratum)")
         return
+    if "lean_expr" in ent and "exec" in ent:
+        judge_lean_expr(ctx, sc, "py", dict(ent, runs=ent["exec"]), " (oracle-only stratum)", approx=True)
     classes = cg.rich_classes(case["content"])
     fid = "F-C07-11" if "shared-modulus" in classes else None     # "recip-modulus" (former F-C07-10) is repaired
     for si, _ in enumerate(case["states"]):
@@ -690,6 +761,50 @@ def judge_oracle_only(ctx, case, R, extern=None):
         ctx.hist["executed_ts_oracle_only"] = ctx.hist.get("executed_ts_oracle_only", 0) + 1
         ctx.judge(sub_case(case, "ts", si), Rx, S, None, finding=fid,
                   what="ts: generated code run by node vs model (oracle-only stratum)")
+
+
+def judge_lean_expr(ctx, sc, lang, ent, tag="", approx=False):
+    """the Lean reader of the emitted right-hand sides (C07_expr_text_value / _unambiguous are about it) against the
+    Python-side evaluator of the same text, at the first state; and: do the parentheses of the text coincide with the
+    ones the Lean printer writes for the tree it read (policy: parenthesise an operand iff it binds less tightly than
+    its position requires, right operands of - and / and of * + strictly)?"""
+    L = ent.get("lean_expr")
+    if L is None or "runs" not in ent or not ent["runs"]:
+        return
+    h = ctx.hist
+    if "unsupported" in L:
+        h["expr_lines_outside_fragment"] = h.get("expr_lines_outside_fragment", 0) + 1
+        return
+    Rv = ent["runs"][0]
+    if Rv == "inexact" or "ok" not in Rv:
+        h["expr_text_not_evaluated"] = h.get("expr_text_not_evaluated", 0) + 1
+        return
+    if "noValue" in L and approx:     # conditional expressions, calls: not the reader's grammar
+        h["expr_lines_outside_fragment"] = h.get("expr_lines_outside_fragment", 0) + 1
+        return
+    if "noValue" in L:
+        ctx.add_drift(sc, Rv, L, f"{lang}: the Lean expression reader finds no value where the text has one{tag}")
+        return
+    vals = dict(map(tuple, L["values"]))
+    ret = ent["shape"]["ret"]
+    try:
+        Lv = {"ok": [C.num(Fraction(vals[n])) for n in ret]}
+    except KeyError as e:
+        Lv = {"err": ["NameError", str(e.args[0])]}
+    h[f"expr_texts_read_by_lean_{lang}"] = h.get(f"expr_texts_read_by_lean_{lang}", 0) + len(L["values"])
+    if approx:
+        h["expr_texts_with_remainder_read_by_lean"] = h.get("expr_texts_with_remainder_read_by_lean", 0) + sum(
+            1 for _, t in ent["lines"] if "%" in t)
+    if Lv != Rv and not (approx and cg.close(Lv, Rv)):
+        ctx.add_drift(sc, Rv, Lv, f"{lang}: Lean expression reader vs the evaluator of the emitted text{tag}")
+    if not all(L.get("treeValue", [])):
+        ctx.add_drift(sc, {"treeValue": True}, L["treeValue"], f"{lang}: E.eval of the parsed tree differs from the value read{tag}")
+    nd = sum(1 for f in L["reprint"] if not f)
+    if nd:
+        h[f"expr_parentheses_differ_{lang}"] = h.get(f"expr_parentheses_differ_{lang}", 0) + nd
+        smp = ctx.extra_cov.setdefault("expr_parentheses_differ_samples", [])
+        if len(smp) < 80:
+            smp += [[lang, t] for (k, t), f in zip(ent["lines"], L["reprint"]) if not f][:2]
 
 
 def judge_phase(ctx, case, R, M, extern=None, tag=""):
@@ -727,6 +842,14 @@ def judge_phase(ctx, case, R, M, extern=None, tag=""):
                       Mg if Mg is None or "err" in Mg else {"ok": "text emitted"},
                       what=f"{lang}: free parameters with an initial-assignment parameter must be refused{tag}")
             continue
+        unknown = [k for k in case["free"] if k not in {p for p, _ in case["content"]["pars"]}]
+        if unknown:
+            # a requested free parameter that is no parameter of the model: `parameters.pop(key)` raises KeyError
+            # (C07_free_parameter_unknown)
+            ctx.judge(sc, ent.get("gen", {"ok": "text emitted"}), {"err": ["KeyError", unknown[0]]},
+                      Mg if Mg is None or "err" in Mg else {"ok": "text emitted"},
+                      what=f"{lang}: a free parameter that is no parameter of the model{tag}")
+            continue
         if "gen" in ent:
             ctx.judge(sc, ent["gen"], {"ok": "text emitted"}, Mg if Mg is None or "err" in Mg else {"ok": "text emitted"},
                       what=f"{lang}: generation raised")
@@ -740,6 +863,7 @@ def judge_phase(ctx, case, R, M, extern=None, tag=""):
                 ctx.add_drift(sc, ent["shape"], Mg, f"{lang}: Lean generator fails where the code emits text")
             elif model_shape(Mg["ok"]) != ent["shape"]:
                 ctx.add_drift(sc, ent["shape"], model_shape(Mg["ok"]), f"{lang}: program shape{tag}")
+        judge_lean_expr(ctx, sc, lang, ent, tag)
         if lang == "rs" and py_trees:
             ent["rs_paren"] = any(py_trees.get(k) is not None and py_trees[k] != tr for k, tr in map(tuple, ent["trees"]))
         fid, in_model = classify(case, lang, ent, feats)
@@ -946,6 +1070,10 @@ CORPUS = [
     {"content": {"vars": [["x", {"v": "1"}], ["y", {"v": "1"}]], "pars": [["k", {"v": "2"}]], "derived": [],
                  "rxns": [["r", {"args": ["x", "k"], "e": ["*", ["a", 0], ["a", 1]], "st": [["x", {"c": "-1"}], ["y", {"c": "1"}]]}]]},
      "free": ["k"], "states": [["0", ["3", "1"], ["3"]]], "stratum": "corpus"},
+    # a requested free parameter that is no parameter of the model: KeyError (C07_free_parameter_unknown)
+    {"content": {"vars": [["x", {"v": "1"}], ["y", {"v": "1"}]], "pars": [["k", {"v": "2"}]], "derived": [],
+                 "rxns": [["r", {"args": ["x", "k"], "e": ["*", ["a", 0], ["a", 1]], "st": [["x", {"c": "-1"}], ["y", {"c": "1"}]]}]]},
+     "free": ["k", "nope"], "states": [["0", ["3", "1"], ["3", "4"]]], "stratum": "corpus"},
     # no reaction changes any variable (F-C07-3 as it is now): `return ()` / `[()]`
     {"content": {"vars": [["x", {"v": "1"}], ["z", {"v": "1"}]], "pars": [["k", {"v": "2"}]],
                  "derived": [["d", {"args": ["x", "k"], "e": ["*", ["a", 0], ["a", 1]]}]], "rxns": []},
